@@ -21,6 +21,21 @@ K = '(mkKey {name} {arity})'
 add(Contract('engine.YP.atom', 'pure', [('self', 'YP'), ('name', 'Str'), ('module', 'Opt:Any:None')], ret='Term',
              value='(TAtom {name})', notes='assumed (interning dict not modelled); bounded-checked under C16'))
 
+# the constructor API the emitted code calls (spec/literals.smt2 `denote` relies on exactly these equations)
+add(Contract('engine.YP.functor', 'fn', [('self', 'YP'), ('name', 'Str'), ('args', 'TList')], ret='Term',
+             ensures=['(= {result} (TFun {name} {args}))']))
+add(Contract('engine.YP.functor1', 'fn', [('self', 'YP'), ('name', 'Str'), ('arg', 'Term')], ret='Term',
+             ensures=['(= {result} (TFun {name} (cons {arg} nil)))']))
+add(Contract('engine.YP.functor2', 'fn', [('self', 'YP'), ('name', 'Str'), ('arg1', 'Term'), ('arg2', 'Term')], ret='Term',
+             ensures=['(= {result} (TFun {name} (cons {arg1} (cons {arg2} nil))))']))
+add(Contract('engine.YP.functor3', 'fn', [('self', 'YP'), ('name', 'Str'), ('arg1', 'Term'), ('arg2', 'Term'), ('arg3', 'Term')], ret='Term',
+             ensures=['(= {result} (TFun {name} (cons {arg1} (cons {arg2} (cons {arg3} nil)))))']))
+add(Contract('engine.YP.listpair', 'fn', [('self', 'YP'), ('head', 'Term'), ('tail', 'Term')], ret='Term',
+             ensures=['(= {result} (TFun "." (cons {head} (cons {tail} nil))))']))
+add(Contract('engine.YP.variable', 'fn', [('self', 'YP')], ret='Term', modifies=['nextv'],
+             # a new variable: not an existing one (>= every id allocated so far), and the allocation counter moves past it
+             ensures=['((_ is TVar) {result})', '(>= (vid {result}) {nextv0})', '(> {nextv} (vid {result}))']))
+
 add(Contract('engine.YP._clauses', 'fn', [('self', 'YP'), ('name', 'Str'), ('arity', 'Int')], ret='FList',
              modifies=['lists', 'nextref'],
              ensures=['(= (select {lists} {result}) (dbseq {pstore} {lists0} ' + K + '))',
@@ -196,8 +211,9 @@ add(Contract('engine.YP.once', 'gen', [('self', 'YP'), ('goal', 'Term')], ret='I
              loops={0: LoopSpec(['(= (select {hcnt} {it}) 0)'])},
              ghost={'max_yields': 1}))
 
-add(Contract('engine.YP.makelist', 'pure', [('self', 'YP'), ('l', 'TList')], ret='Term', value='(mklist {l})',
-             notes='assumed (functools.reduce over reversed: A-EXT-REDUCE); bounded-checked under C16'))
+add(Contract('engine.YP.makelist', 'fn', [('self', 'YP'), ('l', 'TList')], ret='Term',
+             ensures=['(= {result} (mklist {l}))'], ghost={'fold_spec': 'mklist'},
+             notes='functools.reduce over reversed(l) is the right fold (A-EXT-REDUCE): base and step of the fold are obligations'))
 
 add(Contract('engine.YP.findall', 'gen', [('self', 'YP'), ('template', 'Term'), ('goal', 'Term'), ('bag', 'Term')], ret='Iter',
              answers='(AOther 3)',
